@@ -105,6 +105,8 @@ func snap(s *fsess.Session) view {
 		}
 		if vs, ok := val.(string); ok {
 			v.Data[ks] = vs
+		} else if _, ok := val.(privVal); ok {
+			v.Data[ks] = badVal
 		} else {
 			v.Data[ks] = fmt.Sprintf("%T", val)
 			v.Odd = append(v.Odd, fmt.Sprintf("key %s holds a %T no handler stored", ks, val))
@@ -209,15 +211,17 @@ func execOps(c fiber.Ctx, st *fsess.Store, m *fsess.Middleware, psess **fsess.Se
 				r.GotOK = true
 				if s, ok := v.(string); ok {
 					r.Got = s
+				} else if _, ok := v.(privVal); ok {
+					r.Got = badVal
 				} else {
 					r.Got = fmt.Sprintf("%T", v) // not a value any handler stored
 				}
 			}
 		case "set":
 			if m != nil {
-				m.Set(keyOf(o.Key), o.Val)
+				m.Set(keyOf(o.Key), valOf(o.Val))
 			} else {
-				sess.Set(keyOf(o.Key), o.Val)
+				sess.Set(keyOf(o.Key), valOf(o.Val))
 			}
 		case "del":
 			if m != nil {
